@@ -15,7 +15,10 @@ lists gofacts regenerates from formatter.go on every run (Gen/FmtCode.lean):
     one (`ScalarString.MinusTkn`) and ALL child fields: so the skeleton keeps no source whitespace
     or comment at all (but the halt-compiler tail and what stands before the sign of `"$a[-1]"`);
   * `formatted_text_depends_on_structure_only` — two trees with the same skeleton print, after
-    formatting, to the same bytes (printer model of C15).
+    formatting, to the same bytes (printer model of C15);
+  * `format_keeps_nodes` — for every schema-well-formed tree without inline HTML the formatted tree has
+    the kinds, byte values and children of the tree: the formatter touches tokens only (with inline HTML
+    formatStmts inserts `StmtNop{"?>"}` nodes: a recorded finding).
 
 Tie: T-gen (the instruction lists; the translator rejects any statement of formatter.go outside the
 instruction vocabulary, whose constructors cannot read trivia) + T-diff (`diff-formatter`: the
@@ -115,6 +118,37 @@ theorem fmt_covers_tokens : uncoveredToks = companionTokens := by decide +kernel
     the statements of a namespace (visited exactly when the namespace is bracketed, and a namespace with
     statements is; the analysis does not look through the local `bracketed`) -/
 theorem fmt_covers_children : uncoveredKids = [(Gen.K_StmtNamespace, 4)] := by decide +kernel
+
+/-! ### formatting keeps the program's nodes -/
+
+def schemaOf (k : Nat) : List Nat := rowAt Gen.schemaSorts k
+
+/-- every `n.F.Accept(f)` of every method is on a field that holds a single child -/
+def accSingleOK : Bool :=
+  (List.range Gen.nKinds).all (fun k => (acceptsIs (prog k)).all (fun f => ((schemaOf k)[f]?).getD 0 == 3))
+
+theorem acc_single_ok : accSingleOK = true := by decide +kernel
+
+theorem acc_single : AccSingle realCfg schemaOf := by
+  intro k f hf
+  by_cases hk : k < Gen.nKinds
+  · have h := List.all_eq_true.mp acc_single_ok k (List.mem_range.mpr hk)
+    have h2 := List.all_eq_true.mp h f hf
+    simpa using h2
+  · -- no method beyond the schema
+    have : prog k = [] := by
+      have hl : Gen.fmtProgs.length = Gen.nKinds := by decide +kernel
+      unfold prog
+      have : Gen.fmtProgs[k]? = none := by simp; omega
+      simp [this]
+    simp [realCfg, this, acceptsIs] at hf
+
+/-- PRESERVATION on the tree level (every schema-well-formed tree without inline HTML, every state): the
+    formatted tree has the kinds, byte values, children and slice nil-ness of the tree — the formatter
+    touches tokens only -/
+theorem format_keeps_nodes (t : Tree) (hw : t.WF schemaOf) (hno : noKind realCfg.htmlKind t = true)
+    (s : FSt) (t' : Tree) (s' : FSt) (h : fmtTree realCfg t s = some (t', s')) : shape t' = shape t :=
+  fmtTree_shape realCfg schemaOf acc_single t hw hno s t' s' h
 
 /-- the analysis is not vacuous: a method that rewrites a token only under a condition on another field is
     reported -/
